@@ -80,7 +80,13 @@ func (r *Registry) Add(soyfile *ast.SoyFileNode) error {
 			return fmt.Errorf("template may not have both soydoc and header params specified")
 		}
 		if file, ok := r.fileByTemplateName[tn.Name]; ok {
-			return fmt.Errorf("template %v is defined more than once (in %v and %v)", tn.Name, file, soyfile.Name)
+			// (the two files in a fixed order: the text of the error does not depend on
+			// the order in which the files were added.)
+			var other = soyfile.Name
+			if other < file {
+				file, other = other, file
+			}
+			return fmt.Errorf("template %v is defined more than once (in %v and %v)", tn.Name, file, other)
 		}
 		tn.Body.Nodes = tn.Body.Nodes[len(headerParams):]
 
